@@ -242,6 +242,21 @@ def check(case):
         if not e <= TOL_ZERO:
             fail(f"{name} at a reference set with set_reference_strains vs 0", f"|{name}| = {e:.3e} at the new reference '{other}'",
                  {"new_reference": other, "value": e, "tol": TOL_ZERO})
+    if system.nla_c:
+        # the new reference after a RE-ASSEMBLY: the force form la_c(q) and the compliance form c(q, la_c) of the mixed formulation must
+        # still agree at a strained state (precomputed element tables must follow the reference; seeded C26-k)
+        from cardillo.solver import SolverOptions
+
+        with quiet():
+            system.assemble(options=SolverOptions(compute_consistent_initial_conditions=False))
+        qd = bases[1][1]
+        la = np.asarray(system.la_c(0.0, qd, ev.u0), float)
+        cres = _maxabs(system.c(0.0, qd, ev.u0, la))
+        stats["max_c_at_la_c_after_reference_update"] = cres
+        ev.n += 2
+        if not cres <= 1e-10 * max(1.0, _maxabs(la)):
+            fail("c(q, la_c(q)) vs 0 after set_reference_strains + re-assembly", f"|c(q, la_c(q))| = {cres:.3e} at the deformed state (|la_c| up to {_maxabs(la):.3e})",
+                 {"value": cres, "new_reference": other})
     with quiet():
         rod.set_reference_strains(Q.copy())
     vals = ev.inv(Q)
